@@ -19,6 +19,10 @@ from harness.translate import c14 as tr
 
 PROP = "C14"
 MODEL = "model_c14"
+# crash sites the model reproduces as `crash` (the other known crashes are modelled as the
+# error the validator is meant to give; see Model/Constraints.lean)
+MODELLED_CRASHES = {"crash:ir_util.py:get_attribute:AssertionError",
+                    "crash:constraints.py:_check_type_requirements_for_field:ValueError"}
 
 
 # ======================================================================== observation
@@ -282,6 +286,10 @@ def violation_cases(words):
       {"field-too-small", "req-not-met:UInt"}, "explicit size beyond maximum field size")
     V(mod("struct Foo:\n  0 [+1]  bits:\n    0 [+16]  UInt  x\n"), "explicit-size", {"fixed-wrong-field"},
       "anonymous bits bigger than its field")
+    V(mod("struct Foo:\n  0 [+1]  bits:\n    0 [+1]  UInt  b\n  1 [+b]  UInt:16  x\n"), "explicit-size",
+      {"field-too-small"}, "explicit size beyond the maximum size of a variable field")
+    out.append(Case(mod("struct Foo:\n  0 [+1]  bits:\n    0 [+1]  UInt  b\n  1 [+b]  UInt:8  x\n"), True,
+                    "explicit-size", tag="explicit size within the maximum size of a variable field"))
     # byte order
     for ty in SCALARS:
         V("struct Foo:\n  0 [+2]  %s  x\n" % ty, "byte-order", {"bo-required"}, "missing")
@@ -392,13 +400,13 @@ def violation_cases(words):
     import re as _re
     for w in words:
         if _re.fullmatch(r"[a-z][a-z_0-9]*", w):
-            V(mod("struct Foo:\n  0 [+1]  UInt  %s\n" % w), "reserved", {"reserved-field"}, "field " + w)
-            V(mod("struct Foo:\n  0 [+1]  UInt  x\n  let %s = x\n" % w), "reserved", {"reserved-field"},
+            V(mod("struct Foo:\n  0 [+1]  UInt  %s\n" % w), "reserved", {"reserved-field", "other:Syntax error"}, "field " + w)
+            V(mod("struct Foo:\n  0 [+1]  UInt  x\n  let %s = x\n" % w), "reserved", {"reserved-field", "other:Syntax error"},
               "virtual field " + w)
         if _re.fullmatch(r"[A-Z][A-Z_0-9]*[A-Z_][A-Z_0-9]*", w):
-            V(mod("enum Ee:\n  %s = 1\n" % w), "reserved", {"reserved-enum"}, "enum value " + w)
+            V(mod("enum Ee:\n  %s = 1\n" % w), "reserved", {"reserved-enum", "other:Syntax error"}, "enum value " + w)
         if _re.fullmatch(r"[A-Z][a-zA-Z0-9]*[a-z][a-zA-Z0-9]*", w):
-            V(mod("struct %s:\n  0 [+1]  UInt  x\n" % w), "reserved", {"reserved-type"}, "type " + w)
+            V(mod("struct %s:\n  0 [+1]  UInt  x\n" % w), "reserved", {"reserved-type", "other:Syntax error"}, "type " + w)
     return out
 
 
@@ -749,6 +757,10 @@ def run_cases(chk, cases, model_ok, stats):
         if ob["exc"] is not None and chk.known_finding(ob["exc_key"]):
             chk.report_known(chk.known_finding(ob["exc_key"]))
             stats["known_crashes"] = stats.get("known_crashes", 0) + 1
+            if ob["exc_key"] in MODELLED_CRASHES and ob["program"] is not None and \
+                    "(" not in c.text.replace("(cpp) namespace", ""):
+                lines.append(model_line(ob["program"]))
+                idx.append(len(obs) - 1)
             continue
         if chk.known_finding("input:" + c.text):
             if why:
@@ -913,9 +925,24 @@ def search(chk):
     words = [w for w, _ in tr.reserved_words()]
     r = common.rng("C14-search")
     sample = r.sample(words, min(60, len(words)))
+    sample += [w for w in pinned_reserved() if w not in set(words)]
     cases = valid_boundary_cases() + violation_cases(sample)
     run_cases(chk, cases, False, stats)
     return len(chk.violations) - before
+
+
+def pinned_reserved():
+    """Snapshot of the documented reserved-word list (corpus/C14/reserved_words.pinned): a word
+    that disappears from compiler/front_end/reserved_words must still be rejected."""
+    out = []
+    try:
+        with open(os.path.join(common.VERIF, "corpus", PROP, "reserved_words.pinned"), encoding="utf-8") as f:
+            for line in f:
+                if line.strip():
+                    out.append(line.rstrip("\n").split("\t")[0])
+    except OSError:
+        pass
+    return out
 
 
 def new_stats():
@@ -935,13 +962,21 @@ def run(tier):
     words = [w for w, _ in tr.reserved_words()]
     r = common.rng("C14")
     if tier == "quick":
-        wsample = r.sample(words, min(40, len(words)))
+        import re as _re
+        camel = [w for w in words if _re.fullmatch(r"[A-Z][a-zA-Z0-9]*[a-z][a-zA-Z0-9]*", w)]
+        shouty = [w for w in words if _re.fullmatch(r"[A-Z][A-Z_0-9]*[A-Z_][A-Z_0-9]*", w)]
+        snake = [w for w in words if _re.fullmatch(r"[a-z][a-z_0-9]*", w)]
+        wsample = (r.sample(snake, min(30, len(snake))) + r.sample(shouty, min(8, len(shouty)))
+                   + r.sample(camel, min(8, len(camel))))
         n_rand = 150
     else:
         wsample = words
         n_rand = 3000
         prelude_oracle(chk)
-    cases = testdata_cases() + corpus_cases() + finding_cases() + valid_boundary_cases() + violation_cases(wsample)
+    dropped = [w for w in pinned_reserved() if w not in set(words)]
+    chk.extra["reserved_words_dropped_since_pinned"] = dropped[:20]
+    cases = (testdata_cases() + corpus_cases() + finding_cases() + valid_boundary_cases()
+             + violation_cases(wsample + dropped))
     # random valid modules and single mutations of them
     for i in range(n_rand):
         text, feats = rand_module(r)
